@@ -1,7 +1,7 @@
 SPECIFICATION Spec
 CONSTANTS
   Times <- TimesQuick
-  T0s <- T0sTwo
+  T0s <- T0sShift
   Dims = {2, 3}
   Kinds <- AllKinds
   Methods <- AllMethods
@@ -11,6 +11,8 @@ CONSTANTS
   MaxAt = 2
   ExpmDopModes <- Repaired
   Solve2Modes <- Solve2OK
+  Progbars <- PbOff
+  Progbar0Modes <- PbOK
   PrintCases = FALSE
 INVARIANT TypeOK
 INVARIANT Schrodinger
